@@ -8,7 +8,7 @@ p = next(json.loads(l) for l in open('/verif/properties.jsonl') if json.loads(l)
 print(f"""You are helping to evaluate a verification effort for the C event-loop library ivykis (buytenh/ivykis).
 You have your own scratch git worktree of the library at {wt} (already configured and built in-tree with autotools:
 `make -j16` rebuilds, `make check` runs the existing 11-test suite, which currently passes). Work ONLY inside {wt}.
-Do not read, list or touch /verif or /repo, and do not look at any other directory under /tmp/wt.
+Do not read, list or touch /verif or /repo, and do not look at any other directory under {__import__('os').path.dirname(wt)}.
 
 Here is a semantic property that the library is supposed to guarantee:
 
